@@ -112,9 +112,9 @@ Qed.
 
 (* The oracle holds on the model's observation of every case (no hypothesis: a history is
    judged up to its first failed call, as the statement excludes failed attempts). *)
-Theorem c08_oracle_on_model c : C08_holds_on c (hist_model cur c) = true.
+Theorem c08_oracle_on_model c : C08_holds_on_h c (hist_model cur c) = true.
 Proof.
-  unfold C08_holds_on, hist_model, hist_of. cbn [fst snd].
+  unfold C08_holds_on_h, hist_model, hist_of. cbn [fst snd].
   apply (c08_walk_model c _ (hc_sends c) (init_exp c)).
   - unfold st_wf, init_exp. cbn [x_seq]. now rewrite u32_idem.
   - reflexivity.
